@@ -445,7 +445,7 @@ func stackExec(t int, c stackCase) []obj {
 			}
 			r.mu.Unlock()
 			if m != nil {
-				r.parties[m.to].HandleMessage(m.m)
+				r.deliver(m)
 			} else {
 				time.Sleep(200 * time.Microsecond)
 			}
